@@ -794,3 +794,41 @@ func positionsRecursive(t Tier) []*Grammar {
 	})
 	return out
 }
+
+// EOFRef: grammars that name the EOF token explicitly, over re-spaced inputs (elided tokens before EOF).
+func EOFRef(t Tier) []*Grammar {
+	leaves := []func() *g.Node{
+		capOf(ref("Ident")), lit(";"), ref("EOF"),
+		func() *g.Node { return g.Grp(g.Alt(g.Lit(";"), g.Ref("EOF")), 0) },
+		func() *g.Node { return g.Grp(capMark(g.Ref("Ident")), '*') },
+		func() *g.Node {
+			return g.Grp(g.Seq(capMark(g.Ref("Ident")), g.Grp(g.Alt(g.Lit(";"), g.Ref("EOF")), 0)), '*')
+		},
+		func() *g.Node { return g.Look(g.Ref("EOF"), '!') },
+		func() *g.Node { return g.Look(g.Ref("EOF"), '=') },
+	}
+	memo := map[int][]func() *g.Node{}
+	var ts []func() *g.Node
+	ts = append(ts, terms(1, leaves, memo)...)
+	ts = append(ts, terms(2, leaves, memo)...)
+	if t == Thorough {
+		ts = append(ts, terms(3, leaves[:5], map[int][]func() *g.Node{})...)
+	}
+	every := 1
+	if t == Quick {
+		every = 2
+	}
+	grs := build("eofref", thin(top(ts), every), []scheme{schemeShared}, "ab;", 3)
+	for _, gr := range grs {
+		gr.Elide = ElideAll
+		gr.Spaced = true
+		gr.Fills = []string{"", " ", " #"}
+		if t == Quick {
+			gr.Fills = []string{"", " #"}
+		}
+		gr.SpacedLen = 3
+		gr.NamesElided = true // the metamorphic re-spacing oracle is not applied; the model decides
+		gr.Lookaheads = []int{0, 1, 2, -1}
+	}
+	return grs
+}
